@@ -116,7 +116,9 @@ func certsOf(ids []*ident) []*smx509.Certificate {
 	return out
 }
 
-// nonRecipientAttempts enumerates (certificate, key) pairs that are not "recipient i with recipient i's key".
+// nonRecipientAttempts enumerates (certificate, key) pairs whose private key is not a recipient's: a non-recipient
+// certificate with its own key, and each recipient certificate with an outsider's key of either family.
+// (A recipient certificate paired with another recipient's key is not enumerated: that key IS a recipient's.)
 type attempt struct {
 	what string
 	cert *smx509.Certificate
@@ -136,15 +138,10 @@ func nonRecipientAttempts(fms map[string]*family, ids []*ident) []attempt {
 			}
 		}
 	}
-	for i, x := range ids {
+	for _, x := range ids {
 		for _, fn := range []string{"sm2", "rsa"} {
 			o := fms[fn].leaf[3]
 			out = append(out, attempt{"recipient cert " + x.name + " with outsider key " + o.name, x.cert, o.key})
-		}
-		for j, y := range ids {
-			if i != j {
-				out = append(out, attempt{"recipient cert " + x.name + " with other recipient's key " + y.name, x.cert, y.key})
-			}
 		}
 	}
 	return out
@@ -196,7 +193,7 @@ func envelopedE2(t *engine.T, fms map[string]*family, api envAPI, cs cipherSpec,
 						if di == 1 {
 							k = "cfca-wrapper-disagrees"
 						}
-						t.Fail("env/"+k+"/"+api.name+"/"+cs.name+"/"+style, "%s recipient %s: got (%s, %v) want content %s; artefact %s", shape, id.name, engine.Hex(pt), derr, engine.Hex(content), engine.Hex(enc))
+						t.Fail("env/"+k+"/"+api.name+"/"+cs.name, "%s encoding="+style+" recipient %s: got (%s, %v) want content %s; artefact %s", shape, id.name, engine.Hex(pt), derr, engine.Hex(content), engine.Hex(enc))
 					} else {
 						t.Outcome("env/recipient-decrypts")
 						t.Nontrivial(shape + "/" + style)
@@ -281,7 +278,7 @@ func encryptedE2(t *engine.T, api pskAPI, cs cipherSpec, n int) {
 		}
 		t.Eval(1)
 		if derr != nil || !bytes.Equal(pt, content) {
-			t.Fail("psk/cannot-decrypt/"+cs.name+"/"+style, "%s: got (%s, %v) want %s; artefact %s", shape, engine.Hex(pt), derr, engine.Hex(content), engine.Hex(enc))
+			t.Fail("psk/cannot-decrypt/"+cs.name, "%s encoding="+style+": got (%s, %v) want %s; artefact %s", shape, engine.Hex(pt), derr, engine.Hex(content), engine.Hex(enc))
 		} else {
 			t.Outcome("psk/decrypts")
 			t.Nontrivial(shape + "/" + style)
@@ -367,11 +364,14 @@ func sedRecipientSets(p digestPair) []rcpSet {
 	return rsaSets
 }
 
-func sedE2(t *engine.T, fms map[string]*family, p digestPair, cs cipherSpec, n int) {
+func sedE2(t *engine.T, fms map[string]*family, p digestPair, cs cipherSpec, n int, full bool) {
 	content := contentOf(n)
 	f := fms[p.fam]
-	for _, set := range signerSets[:3] {
-		for _, rs := range sedRecipientSets(p) {
+	for si, set := range signerSets[:3] {
+		for ri, rs := range sedRecipientSets(p) {
+			if !full && !(si == ri || (si == 0 && ri == 2) || (si == 2 && ri == 0)) {
+				continue
+			}
 			shape := fmt.Sprintf("SignedAndEnveloped/%s/%s/len=%d/%s/%s", p.name, cs.name, n, setName(set), rs.name)
 			ids := identsOf(fms, rs.r)
 			var art []byte
@@ -400,7 +400,7 @@ func sedE2(t *engine.T, fms map[string]*family, p digestPair, cs cipherSpec, n i
 						}
 						t.Eval(1)
 						if derr != nil || !bytes.Equal(pt, content) {
-							t.Fail("sed/recipient-cannot-open/"+p.name+"/"+cs.name+"/"+v.name+"/"+style, "%s recipient %s: got (%s, %v) want %s; artefact %s", shape, id.name, engine.Hex(pt), derr, engine.Hex(content), engine.Hex(enc))
+							t.Fail("sed/recipient-cannot-open/"+p.name+"/"+cs.name, "%s "+v.name+" encoding="+style+" recipient %s: got (%s, %v) want %s; artefact %s", shape, id.name, engine.Hex(pt), derr, engine.Hex(content), engine.Hex(enc))
 						} else {
 							t.Outcome("sed/opens/" + v.name)
 							t.Nontrivial(shape + "/" + v.name + "/" + style)
@@ -431,14 +431,18 @@ type opener struct {
 	open func(mut []byte) ([]byte, error)
 }
 
-func envelopeE3(t *engine.T, kind, shape string, cs cipherSpec, authenticated bool, art, content []byte, openers []opener) {
-	opened, same := 0, 0
+func envelopeE3(t *engine.T, kind, shape string, cs cipherSpec, authenticated bool, art, content []byte, openers []opener, withNest bool) {
+	opened, same, skipped := 0, 0, 0
 	cnt := engine.EachMutant(art, engine.MutOpt{DER: true}, func(desc string, mut []byte) {
+		if !withNest && strings.HasPrefix(desc, "der/nest") {
+			skipped++ // the deep-nesting probes do not depend on the seed: executed once (first E3 case)
+			return
+		}
 		mc := mutClass(desc)
 		for _, o := range openers {
 			var pt []byte
 			var err error
-			if t.Guard("alter/"+kind+"/"+cs.kind, func() { pt, err = o.open(mut) }) {
+			if t.Guard("alter", func() { pt, err = o.open(mut) }) {
 				continue
 			}
 			if err != nil {
@@ -457,7 +461,7 @@ func envelopeE3(t *engine.T, kind, shape string, cs cipherSpec, authenticated bo
 				continue
 			}
 			if authenticated {
-				t.Fail("alter/"+kind+"/"+cs.kind+"/opens-to-different-plaintext/"+mc,
+				t.Fail("alter/"+kind+"/"+cs.kind+"/opens-to-different-plaintext",
 					"%s mutant %s: %s returns no error and plaintext %s, original %s", shape, desc, o.name, engine.Hex(pt), engine.Hex(content))
 			} else {
 				// CBC / ECB content encryption carries no integrity: a changed plaintext is expected, not a violation
@@ -466,6 +470,7 @@ func envelopeE3(t *engine.T, kind, shape string, cs cipherSpec, authenticated bo
 			}
 		}
 	})
+	cnt -= skipped
 	t.Eval(cnt * len(openers))
 	t.Extra("envelope_mutants", cnt)
 	t.Extra("envelope_mutants_opening", opened)
@@ -478,7 +483,7 @@ func envelopeE3(t *engine.T, kind, shape string, cs cipherSpec, authenticated bo
 // cfcaVerifyAgree: on any input the cfca Verify* wrapper and the pkcs7 Parse+Verify protocol give the same verdict.
 func cfcaVerifyAgree(t *engine.T, m signMode, in, supplied []byte, p7 *pkcs7.PKCS7, perr error) {
 	var cerr error
-	if t.Guard("cfca/verify/"+m.name, func() {
+	if t.Guard("alter", func() {
 		switch {
 		case m.digest:
 			cerr = cfca.VerifyDigestDetach(in, supplied)
@@ -495,7 +500,7 @@ func cfcaVerifyAgree(t *engine.T, m signMode, in, supplied []byte, p7 *pkcs7.PKC
 		if m.external() {
 			p7.Content = supplied
 		}
-		t.Guard("cfca/verify/"+m.name, func() { pk = verifySigned(p7, m, nil) })
+		t.Guard("alter", func() { pk = verifySigned(p7, m, nil) })
 	}
 	t.Eval(1)
 	if (cerr == nil) != (pk == nil) {
